@@ -14,6 +14,7 @@ func init() { register("C06", true, checkC06) }
 
 func checkC06(c *Ctx) {
 	e1CheckConstants(c, "C06-K4", []string{"dhcpv6.", "dhcpv4.", "iana."}, 400)
+	byteOrderRule(c, "C06-K7", []string{"dhcpv4", "dhcpv6", "iana", "rfc1035label"}, 50)
 	r := c.R
 	r.Decides = append(r.Decides,
 		"K1 every decoder slot lands in a field the encoder writes back from, with the same width and an inverse transform (shared with C01-K1/C02-K2: wire-schema symmetry), except the allowed normalisations",
